@@ -88,6 +88,26 @@ def _shallow(v):
     return None
 
 
+def _fingerprint_object(v):
+    """Mutable DEFAULT ARGUMENT values and the like: containers by content identity, instances of library classes by their
+    attributes (a default `Profile()` or `sha1()` shared by every call is state carried between calls and between objects)."""
+    sh = _shallow(v)
+    if sh is not None:
+        return sh
+    mod = getattr(type(v), '__module__', '') or ''
+    if mod == 'minecraft' or mod.startswith('minecraft.'):
+        try:
+            return ('obj', tuple(sorted((k, id(x)) for k, x in vars(v).items())))
+        except TypeError:
+            return None
+    if mod in ('_hashlib', 'hashlib', '_sha1', '_sha2') or type(v).__name__ in ('HASH', 'sha1'):
+        try:
+            return ('hash', v.hexdigest())
+        except Exception:      # noqa
+            return None
+    return None
+
+
 def library_state():
     """Shared mutable state of the library: every dict / set / list bound at module level or at class level in a module of
     the package under verification.  A function under contract that changes any of it carries state from one call to the
@@ -96,19 +116,39 @@ def library_state():
     for name, mod in list(sys.modules.items()):
         if mod is None or not (name == 'minecraft' or name.startswith('minecraft.')):
             continue
+        import types as _types
+
+        def defaults_of(f, where):
+            f = getattr(f, '__func__', f)
+            if isinstance(f, (staticmethod, classmethod)):
+                f = f.__func__
+            if not isinstance(f, _types.FunctionType):
+                return
+            for j, dv in enumerate((f.__defaults__ or ()) + tuple((f.__kwdefaults__ or {}).values())):
+                fp = _fingerprint_object(dv)
+                if fp is not None:
+                    snap['%s [default argument %d]' % (where, j)] = fp
         for k, v in list(vars(mod).items()):
             if k.startswith('__'):
                 continue
             sh = _shallow(v)
             if sh is not None:
                 snap['%s.%s' % (name, k)] = sh
+            elif isinstance(v, _types.FunctionType) and getattr(v, '__module__', None) == name:
+                defaults_of(v, '%s.%s' % (name, k))
             elif isinstance(v, type) and getattr(v, '__module__', None) == name:
+                # the NAMES bound at class level: an attribute that appears while the code runs (a per-class cache filled on
+                # first use) is state too - and an inherited one is shared with every subclass
+                snap['%s.%s [class attribute names]' % (name, v.__qualname__)] = \
+                    ('names', tuple(sorted(ck for ck in vars(v) if not ck.startswith('__'))))
                 for ck, cv in list(vars(v).items()):
-                    if ck.startswith('__'):
+                    if ck.startswith('__') and ck not in ('__init__', '__new__', '__call__'):
                         continue
                     sh = _shallow(cv)
                     if sh is not None:
                         snap['%s.%s.%s' % (name, v.__qualname__, ck)] = sh
+                    else:
+                        defaults_of(cv, '%s.%s.%s' % (name, v.__qualname__, ck))
     return snap
 
 
